@@ -1,10 +1,205 @@
+"""contracts for src/sentence.rs (C02, C05, C06, C07, C08, C17, C19)"""
 from common import PROLOGUE
+
+TALKERS = [('AB', 65, 66), ('AD', 65, 68), ('AI', 65, 73), ('AN', 65, 78), ('AR', 65, 82), ('AS', 65, 83), ('AT', 65, 84), ('AX', 65, 88), ('BS', 66, 83), ('SA', 83, 65)]
+
+SPEC = '''
+// ---- C07 tables (from the property statement: ten talkers, two report types) ---------------------------
+pub open spec fn talker_spec(s: Seq<u8>) -> TalkerId {
+    ''' + ' else '.join('if b2(s, %d, %d) { TalkerId::%s }' % (a, b, n) for (n, a, b) in TALKERS) + ''' else { TalkerId::Unknown }
+}
+pub open spec fn rtype_spec(s: Seq<u8>) -> AisReportType {
+    if b3(s, 86, 68, 77) { AisReportType::VDM } else if b3(s, 86, 68, 79) { AisReportType::VDO } else { AisReportType::Unknown }
+}
+
+/// everything a sentence reports except the decoded message
+pub struct SView {
+    pub talker: TalkerId, pub rtype: AisReportType, pub n: int, pub k: int, pub id: Option<u8>, pub channel: Option<char>,
+    pub data: Seq<u8>, pub fill: int,
+}
+impl AisSentence {
+    pub open spec fn view(&self) -> SView {
+        SView { talker: self.talker_id, rtype: self.report_type, n: self.num_fragments as int, k: self.fragment_number as int, id: self.message_id,
+                channel: self.channel, data: self.data@, fill: self.fill_bit_count as int }
+    }
+}
+impl AisParser {
+    pub closed spec fn view(&self) -> PState { PState { id: self.message_id, num: self.fragment_number as int, data: self.data@ } }
+    /// representation invariant: the buffered payload is bounded by the number of accepted fragments (keeps `len * 6` in range)
+    pub closed spec fn inv(&self) -> bool { self.data@.len() <= self.fragment_number * 0x1000_0000 }
+}
+
+/// C07: the fields transmitted in the sentence body starting at byte p
+pub open spec fn fields_at(o: Seq<u8>, p: int, s: SView) -> bool {
+    &&& s.talker == talker_spec(o.subrange(p, p + 2))
+    &&& s.rtype == rtype_spec(o.subrange(p + 2, p + 5))
+    &&& s.n == dig_val(o, p + 6)
+    &&& s.k == dig_val(o, g_p1(o, p) + 1)
+    &&& (s.id is Some <==> dig_ok(o, g_p2(o, p) + 1))
+    &&& (s.id is Some ==> s.id->Some_0 == dig_val(o, g_p2(o, p) + 1))
+    &&& (s.channel is Some <==> g_cend(o, p) > g_p3(o, p) + 1)
+    &&& (s.channel is Some ==> s.channel->Some_0 as int == o[g_p3(o, p) + 1] as int)
+    &&& s.data =~= o.subrange(g_cend(o, p) + 1, g_pend(o, p))
+    &&& s.fill == dig_val(o, g_pend(o, p) + 1)
+}
+/// C19: the sentence-level type is the 6-bit value of the first payload character
+pub open spec fn mtype_at(o: Seq<u8>, p: int, mtype: u8) -> bool { Some(mtype as int) == sixbit(o[g_cend(o, p) + 1]) }
+/// signature of known finding D4: the armored byte itself is fed to the bit parser, giving its top six bits
+pub open spec fn mtype_kfd4(o: Seq<u8>, p: int, mtype: u8) -> bool { mtype as int == o[g_cend(o, p) + 1] as int / 4 }
+
+pub open spec fn pas_C08(data: &[u8], r: IResult<&[u8], AisSentence>) -> bool {
+    forall|orig: Seq<u8>, p: int| #[trigger] suf(orig, data, p) ==> (r is Ok <==> g_ok(orig, p)) && (r is Ok ==> suf(orig, r->Ok_0.0, g_end(orig, p)))
+}
+pub open spec fn pas_C07(data: &[u8], r: IResult<&[u8], AisSentence>) -> bool {
+    forall|orig: Seq<u8>, p: int| #[trigger] suf(orig, data, p) && r is Ok ==> fields_at(orig, p, r->Ok_0.1@) && r->Ok_0.1.message is None
+}
+pub open spec fn pas_C19(data: &[u8], r: IResult<&[u8], AisSentence>) -> bool {
+    forall|orig: Seq<u8>, p: int| #[trigger] suf(orig, data, p) && r is Ok ==> mtype_at(orig, p, r->Ok_0.1.message_type)
+}
+pub open spec fn pas_KFD4(data: &[u8], r: IResult<&[u8], AisSentence>) -> bool {
+    forall|orig: Seq<u8>, p: int| #[trigger] suf(orig, data, p) && r is Ok ==> mtype_kfd4(orig, p, r->Ok_0.1.message_type)
+}
+pub open spec fn digit_post(data: &[u8], r: IResult<&[u8], u8>) -> bool {
+    forall|orig: Seq<u8>, p: int| #[trigger] suf(orig, data, p) ==>
+        if dig_ok(orig, p) { r is Ok && r->Ok_0.1 == dig_val(orig, p) && suf(orig, r->Ok_0.0, p + dig_len(orig, p)) } else { is_error(r) }
+}
+
+// ---- line level -------------------------------------------------------------------------------------
+/// what an accepted line carries: the checksummed byte range, the sentence, the transmitted checksum
+pub open spec fn nmea_C08(line: Seq<u8>, r: IResult<&[u8], (&[u8], AisSentence, u8)>) -> bool { r is Ok <==> n_ok(line) }
+pub open spec fn nmea_C02(line: Seq<u8>, r: IResult<&[u8], (&[u8], AisSentence, u8)>) -> bool {
+    r is Ok ==> r->Ok_0.1.0@ =~= n_raw(line) && r->Ok_0.1.2 as int == n_ck(line)
+}
+pub open spec fn nmea_C07(line: Seq<u8>, r: IResult<&[u8], (&[u8], AisSentence, u8)>) -> bool {
+    r is Ok ==> fields_at(line, n_d(line) + 1, r->Ok_0.1.1@) && r->Ok_0.1.1.message is None
+}
+pub open spec fn nmea_C19(line: Seq<u8>, r: IResult<&[u8], (&[u8], AisSentence, u8)>) -> bool {
+    r is Ok ==> mtype_at(line, n_d(line) + 1, r->Ok_0.1.1.message_type)
+}
+pub open spec fn nmea_KFD4(line: Seq<u8>, r: IResult<&[u8], (&[u8], AisSentence, u8)>) -> bool {
+    r is Ok ==> mtype_kfd4(line, n_d(line) + 1, r->Ok_0.1.1.message_type)
+}
+
+// ---- the reassembler as a transition function (C05 / C06 / C17), from the property statements ---------------
+pub enum Outcome { Rejected, Incomplete(SView), Complete(SView) }
+
+/// the sentence a well-formed line carries (sentence-level fields, C07)
+pub open spec fn sview_of(o: Seq<u8>) -> SView {
+    let p = n_d(o) + 1;
+    SView {
+        talker: talker_spec(o.subrange(p, p + 2)), rtype: rtype_spec(o.subrange(p + 2, p + 5)),
+        n: dig_val(o, p + 6), k: dig_val(o, g_p1(o, p) + 1),
+        id: if dig_ok(o, g_p2(o, p) + 1) { Some(dig_val(o, g_p2(o, p) + 1) as u8) } else { None },
+        channel: if g_cend(o, p) > g_p3(o, p) + 1 { Some(o[g_p3(o, p) + 1] as char) } else { None },
+        data: o.subrange(g_cend(o, p) + 1, g_pend(o, p)), fill: dig_val(o, g_pend(o, p) + 1),
+    }
+}
+
+/// One line against parser state st.
+///  * malformed line or checksum mismatch: rejected, state untouched                      (C02, C17)
+///  * fragment k < n: k == 1 opens a group (dropping whatever was open); k >= 2 is accepted only if it
+///    continues the open group: same sequence id, previous accepted fragment was k-1      (C06)
+///  * last fragment (k >= n, n != 1): same condition; delivers the concatenation and closes the group
+///  * unfragmented (n == 1): delivered as is, state untouched                                (C17)
+pub open spec fn step(st: PState, line: Seq<u8>) -> (PState, Outcome) {
+    let s = sview_of(line);
+    if !n_ok(line) || xor_spec(n_raw(line)) as int != n_ck(line) { (st, Outcome::Rejected) }
+    else if s.k < s.n {
+        if s.k == 1 { (PState { id: s.id, num: 1, data: s.data }, Outcome::Incomplete(s)) }
+        else if st.id == s.id && s.k == st.num + 1 { (PState { id: st.id, num: s.k, data: st.data + s.data }, Outcome::Incomplete(s)) }
+        else { (st, Outcome::Rejected) }
+    } else if s.n != 1 {
+        if st.id == s.id && s.k == st.num + 1 { (PState { id: st.id, num: 0, data: Seq::empty() }, Outcome::Complete(SView { data: st.data + s.data, ..s })) }
+        else { (st, Outcome::Rejected) }
+    } else { (st, Outcome::Complete(s)) }
+}
+
+/// the decoded message of a delivered sentence: unarmor, then decode (C05: the same two calls, on the same
+/// payload, whether it arrived in one sentence or in several)
+pub open spec fn decoded(payload: Seq<u8>, fill: int, m: AisMessage) -> bool {
+    exists|u: Seq<u8>| #[trigger] crate::messages::unarmor_ok(payload, fill, u) && crate::messages::dispatch_all(u, Ok(m))
+}
+
+/// contract of AisParser::parse against `step`
+pub open spec fn parse_post(pre: PState, post: PState, line: Seq<u8>, decode: bool, r: Result<AisFragments>) -> bool {
+    &&& (!n_ok(line) ==> post == pre && r is Err)
+    &&& (n_ok(line) ==> ({
+            let (st2, out) = step(pre, line);
+            &&& post == st2
+            &&& match out {
+                    Outcome::Rejected => r is Err,
+                    Outcome::Incomplete(v) => r is Ok && r->Ok_0 is Incomplete && r->Ok_0->Incomplete_0@ == v && r->Ok_0->Incomplete_0.message is None,
+                    Outcome::Complete(v) => {
+                        &&& (!decode ==> r is Ok)
+                        &&& (r is Ok ==> r->Ok_0 is Complete && r->Ok_0->Complete_0@ == v
+                                && (decode ==> r->Ok_0->Complete_0.message is Some && decoded(v.data, v.fill, r->Ok_0->Complete_0.message->Some_0))
+                                && (!decode ==> r->Ok_0->Complete_0.message is None))
+                    },
+                }
+        }))
+}
+/// C02: the checksum gate
+pub open spec fn parse_C02(line: Seq<u8>, decode: bool, r: Result<AisFragments>) -> bool {
+    &&& (n_ok(line) && xor_spec(n_raw(line)) as int != n_ck(line) ==>
+            r == Err::<AisFragments, Error>(Error::Checksum { expected: n_ck(line) as u8, found: xor_spec(n_raw(line)) }))
+    // (with decoding on, errors of the payload decoders pass through `?` conversions that Verus does not model; that none of
+    //  them is a checksum error is the single-construction-site obligation of C02, see DESIGN.md)
+    &&& (n_ok(line) && xor_spec(n_raw(line)) as int == n_ck(line) && !decode ==> !(r is Err && r->Err_0 is Checksum))
+}
+
+// the derived `Default` is outside the verus! subset: assumed here (fresh parser = no open group), checked in K
+pub assume_specification[ <AisParser as core::default::Default>::default ]() -> (r: AisParser)
+    ensures r@ == (PState { id: None, num: 0, data: Seq::empty() }), r.inv(),
+;
+
+impl vstd::std_specs::convert::FromSpecImpl<AisFragments> for Option<AisSentence> {
+    open spec fn obeys_from_spec() -> bool { false }
+    open spec fn from_spec(v: AisFragments) -> Option<AisSentence> { None }
+}
+impl vstd::std_specs::convert::FromSpecImpl<AisFragments> for Result<AisSentence> {
+    open spec fn obeys_from_spec() -> bool { false }
+    open spec fn from_spec(v: AisFragments) -> Result<AisSentence> { arbitrary() }
+}
+'''
 
 
 def apply(fc):
-    fc.add_prologue(PROLOGUE)
-    fc.contract('check_checksum', within='impl AisParser', external_body=True)
-    fc.contract('parse_numeric_string', external_body=True)
-    fc.contract('parse_u8_digit', external_body=True)
-    fc.contract('from', within='for AisReportType', external_body=True)
-    fc.contract('from', within='for TalkerId', external_body=True)
+    fc.add_prologue(PROLOGUE.replace('broadcast use {crate::vspec::f32ax::f32_div_total, crate::vspec::f32ax::f32_mul_total};',
+        'broadcast use {crate::vspec::sax::tag_comma, crate::vspec::sax::tag_bs, crate::vspec::sax::tag_bang, crate::vspec::sax::tag_dollar, crate::vspec::sax::tag_star, '
+        'crate::vspec::sax::find_range, crate::vspec::sax::find_shift, crate::vspec::sax::dig_len_range, crate::vspec::sax::dig_val_range, crate::vspec::sax::hex_range, '
+        'crate::vspec::sax::fld_first6};'))
+    fc.add_epilogue(SPEC)
+    # `match typ { b"VDM" => .. }` (byte-string slice patterns) crashes Verus (ill-typed AIR): assumed here, K complete for lengths 0..=4
+    fc.contract('from', within='for AisReportType', ensures=['r == rtype_spec(typ@)'], external_body=True, tags=['C07'])
+    fc.contract('from', within='for TalkerId', ensures=['r == talker_spec(talker_id@)'], external_body=True, tags=['C07'])
+    fc.contract('from', within='impl From<AisFragments> for Option<AisSentence>',
+                ensures=['frag is Complete ==> r == Some(frag->Complete_0)', 'frag is Incomplete ==> r is None'], tags=['C05'])
+    fc.contract('from', within='impl From<AisFragments> for Result<AisSentence>',
+                ensures=['frag is Complete ==> r == Ok::<AisSentence, Error>(frag->Complete_0)', 'frag is Incomplete ==> r is Err'], tags=['C05'])
+    fc.contract('has_more', within='impl AisSentence', ensures=['r == (self.fragment_number < self.num_fragments)'], tags=['C05', 'C06'])
+    fc.contract('is_fragment', within='impl AisSentence', ensures=['r == (self.num_fragments != 1)'], tags=['C05', 'C06'])
+    # Iterator::fold with a closure taking `&item` is outside Verus's subset: assumed here, K bounded (<= 256 bytes)
+    fc.contract('check_checksum', within='impl AisParser',
+                ensures=['xor_spec(sentence@) == expected_checksum ==> r == Ok::<u8, Error>(expected_checksum)',
+                         'xor_spec(sentence@) != expected_checksum ==> r == Err::<u8, Error>(Error::Checksum { expected: expected_checksum, found: xor_spec(sentence@) })'],
+                external_body=True, tags=['C02'])
+    # str::from_utf8 / FromStr (no vstd specification): assumed here, K bounded (<= 6 digits)
+    fc.contract('parse_numeric_string', external_body=True, tags=['C07', 'C08'])
+    fc.contract('parse_u8_digit', requires=[], ensures=['digit_post(data, r)'], external_body=True, tags=['C07', 'C08'])
+    fc.contract('parse_ais_sentence', requires=['line_small(data@.len() as int)'],
+                ensures=['pas_C08(data, r)', 'pas_C07(data, r)', 'pas_C19(data, r)', 'pas_KFD4(data, r)'])
+    fc.body_prefix('parse_ais_sentence', '    proof { suf_unfold(data); }')
+    fc.replace_in('parse_ais_sentence', '|val| *val < 6', '|val: &u8| -> (b: bool) ensures b == (*val < 6), { *val < 6 }')
+    fc.contract('parse_nmea_sentence', requires=['line_small(data@.len() as int)'],
+                ensures=['nmea_C08(data@, r)', 'nmea_C02(data@, r)', 'nmea_C07(data@, r)', 'nmea_C19(data@, r)', 'nmea_KFD4(data@, r)'])
+    fc.body_prefix('parse_nmea_sentence', '    proof { suf_self(data); }')
+    fc.insert_before('parse_nmea_sentence', 'let (data, msg) = terminated(', 'proof { suf_unfold(data); }\n    ')
+    fc.replace_in('parse_nmea_sentence', '|val| val <= &0xff', '|val: &u32| -> (b: bool) ensures b == (*val <= 0xff), { val <= &0xff }')
+    fc.contract('new', within='impl AisParser', ensures=['r@ == (PState { id: None, num: 0, data: Seq::empty() })', 'r.inv()'], tags=['C05', 'C17'])
+    fc.contract('parse', within='impl AisParser', requires=['line_small(line@.len() as int)', 'old(self).inv()'],
+                ensures=['parse_post(old(self)@, final(self)@, line@, decode, r)', 'parse_C02(line@, decode, r)', 'final(self).inv()'], tags=['C02', 'C05', 'C06', 'C07', 'C08', 'C17'])
+    fc.contract('verify_and_extend_data', within='impl AisParser',
+                ensures=['(old(self).message_id == ais_sentence.message_id && ais_sentence.fragment_number as int == old(self).fragment_number + 1) <==> r is Ok',
+                         'r is Err ==> final(self)@ == old(self)@ && !(r->Err_0 is Checksum)',
+                         'r is Ok ==> final(self)@.id == old(self).message_id && final(self)@.num == ais_sentence.fragment_number as int && final(self)@.data =~= old(self).data@ + ais_sentence.data@'],
+                tags=['C05', 'C06', 'C17'])
